@@ -504,6 +504,9 @@ class Pass2(CompilePass):
                         EC.ARGUMENT_COUNT_MISMATCH,
                         node=func_node)
         for arg, arg_type in zip(func_node.args, arg_types):
+            if arg.type.is_unknown:
+                # an ill-typed expression (like "a" - 1) as argument
+                raise CompileError(EC.TYPE_MISMATCH, node=arg)
             if isinstance(arg_type, Type):
                 if not arg.type.is_coercible_to(arg_type):
                     raise CompileError(
@@ -895,6 +898,10 @@ class Pass2(CompilePass):
                 node=node)
 
     def process_binary_op_pre(self, node):
+        if node.left.type.is_array or node.right.type.is_array:
+            # a whole array is not a value
+            raise CompileError(EC.TYPE_MISMATCH, node=node)
+
         if node.op.is_comparison:
             if node.left.type.is_numeric and \
                not node.right.type.is_numeric:
@@ -912,7 +919,7 @@ class Pass2(CompilePass):
                  not node.right.type.is_builtin:
                 raise CompileError(EC.TYPE_MISMATCH, node=node)
 
-        if node.type == Type.UNKNOWN:
+        if node.type.is_unknown:
             raise CompileError(EC.TYPE_MISMATCH, node=node)
 
     def process_unary_op_pre(self, node):
